@@ -13,6 +13,7 @@ PLAN = {
                 slices=["comp"], ref="§7 C10"),
     "C09": dict(families=[("comp", 30, 300)], oracle=lambda h: [f for f in T.oracle_components(h) if f[0] == "C09"],
                 slices=["comp"], ref="§7 C09"),
+    "C08": dict(families=[("fault", 96, 768)], oracle=lambda h: T.oracle_fault(h), slices=["fault"], ref="§7 C08"),
 }
 
 TRUSTED = [
@@ -37,11 +38,12 @@ def slice_lines(h, kind, flags):
 
 
 def read_flags():
-    p = os.path.join(C.LEAN, "BevySyncModel", "Generated", "Sync.lean")
     flags = {}
-    if os.path.exists(p):
-        for m in re.finditer(r"def (\w+) : Bool := (true|false)", open(p).read()):
-            flags[m.group(1)] = m.group(2) == "true"
+    for f in ("Sync.lean", "Guards.lean"):
+        p = os.path.join(C.LEAN, "BevySyncModel", "Generated", f)
+        if os.path.exists(p):
+            for m in re.finditer(r"def (\w+) : Bool := (true|false)", open(p).read()):
+                flags[m.group(1)] = m.group(2) == "true"
     return flags
 
 
@@ -82,14 +84,21 @@ def check(prop_id, tier, seed, replay=None):
     # (O) implementation oracle
     oracle_fails = []
     for h in histories:
-        if h.panic:
-            oracle_fails.append((h, (prop_id if prop_id == "C08" else "C08", "a peer panicked: %s" % str(h.panic)[:200], {})))
+        if h.panic and prop_id != "C08":
+            # a crash is C08's finding; for the other properties the history is simply not usable
+            continue
         for f in plan["oracle"](h):
             oracle_fails.append((h, f))
     # (T) slice correspondence
     lines, inst_of, skipped = [], {}, 0
+    fault_groups = {}
     for h in histories:
-        for kind in plan["slices"]:
+        if "fault" in plan["slices"]:
+            for inst, steps, world, g, panicked in T.fault_lines(h, flags):
+                # ask the model for its verdict under this ordering; observed is filled in below
+                lines.append("fault %s %s %s %s %s" % (inst, g, world, steps, "ok"))
+                fault_groups.setdefault(h.id, {"h": h, "panicked": panicked, "insts": []})["insts"].append(inst)
+        for kind in [k for k in plan["slices"] if k != "fault"]:
             for inst, ls, meta in slice_lines(h, kind, flags):
                 if ls is None:
                     skipped += 1
@@ -102,18 +111,31 @@ def check(prop_id, tier, seed, replay=None):
         if rc != 0:
             print("ERROR: model driver failed: " + merr[-500:])
             return 2
+        model_ok = {}
         for l in mout.split("\n"):
+            inst = l.split(" ")[-1] if l else ""
+            if "#" in inst and inst.split("#")[0] in fault_groups:
+                model_ok[inst] = l.startswith("ok ")      # asked with "ok": ok = the model's flush completes
+                continue
             if l.startswith("ok "):
                 validated += 1
             elif l.startswith("MISMATCH"):
-                inst = l.split(" ")[-1]
                 mismatches.append((inst, l[: l.rfind(" ")]))
+        for hid, grp in fault_groups.items():
+            verdicts = [model_ok.get(i, True) for i in grp["insts"]]
+            inst_of[hid] = (grp["h"], {})
+            if grp["panicked"] and all(verdicts):
+                mismatches.append((hid, "MISMATCH fault: the implementation panicked, the model's flush completes in every order"))
+            elif (not grp["panicked"]) and not any(verdicts):
+                mismatches.append((hid, "MISMATCH fault: the model panics in every order, the implementation did not"))
+            else:
+                validated += 1
 
     violations, known_lines, seen = [], [], set()
     for h, f in oracle_fails:
         if f[0] != prop_id and not (prop_id == "C08"):
             continue
-        key = (h.id, f[1])
+        key = h.id
         if key in seen:
             continue
         seen.add(key)
